@@ -129,7 +129,8 @@ CHECKS['C14'] = (
     '(the special-cased formats and the prefixing expression are read from the source). Tie: model text = real text byte for byte for every format x basis x '
     'description variant (own splitlines model incl. all Unicode line boundaries). On the real texts: added lines are marker-initial and before the data, '
     'name/role/version/library version present, reading headed = reading bare for the readable formats, get_basis(header=True/False) agrees. '
-    'Partial: textwrap is a parameter; readBack_headed for the three modelled readers is checked, not proved.',
+    'header_lines_are_marked: splitting the block into lines (str.splitlines, all Unicode line boundaries) gives exactly the header\'s own lines, each behind the marker — no header line can reach a reader unmarked '
+    '(splitlines_commentBlock, by induction over the splitlines model). Partial: textwrap is a parameter; that the readers drop marker-initial lines is checked, not proved.',
     BASE_NOTE + 'textwrap, str.splitlines of CPython.', '6/C14')
 
 CHECKS['C04'] = (
